@@ -82,11 +82,21 @@ def check_case(e, rng):
         want = e["combo"] if kind == "combo" else e["inter"]
         if model.n_obs() != len(want) or len(wm.y) != len(want):
             return "%s trained on %d experiments, documented: %d (rows %s)" % (kind, model.n_obs(), len(want), [(x["t"], x["m"]) for x in rows])
+        # "exactly the observed experiments, each exactly once, transformed as documented": a multiset - the order in which the model
+        # stores its data is not part of C04 (the documented order is tried first, then any datum not matched yet)
+        left = list(range(len(wm.y)))
         for i, w in enumerate(want):
             wy, mag = ev(w["y"], env)
-            got = (float(wm.y[i]), int(wm.cline[i]), int(wm.dd1[i]), int(wm.dd2[i]))
-            if (got[1], got[2], got[3]) != (w["cl"], w["dd1"], w["dd2"]) or not close(got[0], wy, mag, 5e-4):
-                return "%s training datum %d = %s, documented (%.9g, %d, %d, %d) [row %d]" % (kind, i, got, wy, w["cl"], w["dd1"], w["dd2"], w["row"])
+            hit = None
+            for j in ([i] if i in left else []) + [x for x in left if x != i]:
+                got = (float(wm.y[j]), int(wm.cline[j]), int(wm.dd1[j]), int(wm.dd2[j]))
+                if (got[1], got[2], got[3]) == (w["cl"], w["dd1"], w["dd2"]) and close(got[0], wy, mag, 5e-4):
+                    hit = j
+                    break
+            if hit is None:
+                got = (float(wm.y[i]), int(wm.cline[i]), int(wm.dd1[i]), int(wm.dd2[i])) if i < len(wm.y) else None
+                return "%s: no training datum is the documented (%.9g, %d, %d, %d) of row %d (datum %d is %s)" % (kind, wy, w["cl"], w["dd1"], w["dd2"], w["row"], i, got)
+            left.remove(hit)
         if not index_maps_ok(wm):
             return "%s: the per-sample / per-treatment index lists of the training data do not list each datum exactly once under its own ids" % kind
         if kind == "combo" and len(want) >= 2:
@@ -104,7 +114,7 @@ def check_case(e, rng):
             a = [(bits(float(w2.y[i])), int(w2.cline[i]), int(w2.dd1[i]), int(w2.dd2[i])) for i in range(len(w2.y))]
             b = [(bits(float(wm.y[i])), int(wm.cline[i]), int(wm.dd1[i]), int(wm.dd2[i])) for i in range(len(wm.y))]
             idx_ok = index_maps_ok(w2)
-            if m2.n_obs() != len(want) or a != b or not idx_ok:
+            if m2.n_obs() != len(want) or sorted(a) != sorted(b) or not idx_ok:
                 return "combo handed the observed experiments in two calls holds %s (index maps consistent: %s), in one call %s" % (a, idx_ok, b)
         if kind == "inter":
             gt = {(int(a), int(b)): float(v) for (a, b), v in model.single_effect_lookup.items()}
